@@ -69,11 +69,12 @@ func pathText(v *dg.Val) string {
 
 // side describes where the attributes of a payload (request) or result (response) travel.
 type side struct {
-	hasAny func(attr string) bool // the attribute's type holds an Any somewhere (set by the caller)
-	object bool                   // the value is an object with per-attribute locations
-	attrs  []AttrInfo
-	locs   func(attr string) [][2]string
-	whole  string // for non-object values: the single location
+	response bool
+	hasAny   func(attr string) bool // the attribute's type holds an Any somewhere (set by the caller)
+	object   bool                   // the value is an object with per-attribute locations
+	attrs    []AttrInfo
+	locs     func(attr string) [][2]string
+	whole    string // for non-object values: the single location
 }
 
 func reqSide(ep *EpInfo) side {
@@ -96,7 +97,7 @@ func reqSide(ep *EpInfo) side {
 }
 
 func respSide(ep *EpInfo, r *RespInfo) side {
-	s := side{object: ep.ResultKind == "object", attrs: ep.ResultAttrs}
+	s := side{object: ep.ResultKind == "object", attrs: ep.ResultAttrs, response: true}
 	if r != nil {
 		s.locs = r.locsOf
 		if !s.object {
@@ -262,6 +263,10 @@ func defValInfo(ai *AttrInfo) *dg.Val {
 
 func normDefault(x any) any {
 	switch v := x.(type) {
+	case uint8:
+		return int(v)
+	case int8:
+		return int(v)
 	case int64:
 		return int(v)
 	case int32:
